@@ -10,7 +10,7 @@ The stream is delivered to ``SimpleAsyncHTTPClient`` (fake ``tcp_client`` -> Mem
 clock) twice: with the generated segmentation and in one segment; the end of the stream is FIN
 (with or after the data), RST, or nothing (connection left open).  Options: method GET/HEAD/POST,
 decompress_response, streaming_callback, header_callback, max_body_size / max_header_size placed
-around the real sizes, request/connect timeouts on or off.
+around the real sizes (including max_body_size=0: only empty bodies are acceptable), request/connect timeouts on or off.
 
 Oracle: accept => fetch returns that code, reason, header multimap (Content-Encoding renamed to
 X-Consumed-Content-Encoding when decoded) and body (== concatenation of streaming chunks);
@@ -45,6 +45,12 @@ Sensitivity (quick tier, seed 1, scratch copies of /repo/tornado, one mutant at 
   M4 _GzipMessageDelegate.data_received: decompressed-size check removed           -> caught  C08.body_exceeds_max_body_size
   M5 _read_chunked_body: CRLF after chunk data not checked                         -> caught  C08.reject_returned_response
   M6 _read_body: unequal duplicate Content-Length values accepted                  -> caught  C08.reject_returned_response
+  M7 SimpleAsyncHTTPClient.initialize: `self.max_body_size = max_body_size or max_buffer_size` (0 treated like None)
+     -> caught at seeds 1,2,3  C08.body_exceeds_max_body_size (max_body_size=0, 1200-byte body delivered).  Found by
+     independent mutation testing: limits used to be clamped to >= 1; now max_body_size=0 is a placement of its own in the
+     strategy (("Z", 0)), in the gzip x framing x decompress x streaming grid, and in a sweep of empty / 1-byte / small
+     bodies x framing x streaming x (plain, interim, 204, HEAD, gzip, connection left open); limits relative to an empty
+     body are no longer clamped either.  (HTTPRequest has no per-request max_body_size, so the client level is the only channel.)
 """
 import gzip as _gzip
 
@@ -171,7 +177,8 @@ def case_s(draw):
         "decompress": draw(st.booleans()),
         "streaming": draw(st.booleans()),
         "header_cb": draw(st.sampled_from([False, False, True])),
-        "mbs": draw(st.one_of(st.none(), st.none(), st.tuples(st.sampled_from(["B", "W"]), st.sampled_from([-1, 0, 1, 40])))),
+        "mbs": draw(st.one_of(st.none(), st.none(), st.tuples(st.sampled_from(["B", "W"]), st.sampled_from([-1, 0, 1, 40])),
+                                 st.just(("Z", 0)))),
         "mhs": draw(st.one_of(st.none(), st.none(), st.none(), st.sampled_from([-1, 0, 7]))),
         "timeouts": draw(st.sampled_from([True, True, False])),
     }
@@ -555,7 +562,8 @@ def build(case):
     b.max_body_size = None
     if case["mbs"] is not None:
         base = len(exp_body) if (case["mbs"][0] == "B" and exp_body is not None) else len(b.body_wire)
-        b.max_body_size = max(1, base + case["mbs"][1])
+        # ("Z", 0): the boundary configuration max_body_size=0 - only empty bodies are acceptable (0 is a limit, not "unset")
+        b.max_body_size = 0 if case["mbs"][0] == "Z" else max(0, base + case["mbs"][1])
     b.max_header_size = None
     if case["mhs"] is not None:
         b.max_header_size = max(20, max(b.blocks) + case["mhs"])
@@ -599,6 +607,10 @@ def build(case):
         labels.add("either:" + verdict[1].split(":")[0])
     if b.max_body_size is not None:
         labels.add("max_body_size")
+        if b.max_body_size == 0:
+            labels.add("max_body_size_zero")
+            if not nobody and len(b.body_wire) > 0:
+                labels.add("max_body_size_zero_nonempty_body")
     b.labels = labels
     return b
 
@@ -951,10 +963,17 @@ def grid_cases():
     for enc in [None, "gzip", "multi", "trunc", "crc", "magic", "mid", "garbage"]:
         for framing in ["cl", "chunked", "close"]:
             for decompress in [True, False]:
-                for mbs in [None, ("B", -1), ("B", 0), ("W", -1), ("W", 0)]:
+                for mbs in [None, ("B", -1), ("B", 0), ("W", -1), ("W", 0), ("Z", 0)]:
                     for streaming in [False, True]:
                         yield _base(enc=enc, framing=framing, decompress=decompress, mbs=mbs, streaming=streaming,
                                     payload=b"abcdefgh" * 150, chunks=[100, 333])
+    # max_body_size=0 with empty, 1-byte and small bodies, every framing and body-less status, with/without interim
+    for payload in [b"", b"x", b"hello world"]:
+        for framing in ["cl", "chunked", "close"]:
+            for streaming in [False, True]:
+                for kw in [{}, {"interim": [[100, []]]}, {"code": 204}, {"method": "HEAD"}, {"enc": "gzip"},
+                           {"enc": "gzip", "decompress": False}, {"end": "open"}]:
+                    yield _base(payload=payload, framing=framing, streaming=streaming, mbs=("Z", 0), **kw)
 
 
 PARTS = {"main": run_case, "grid": run_case}
